@@ -46,34 +46,42 @@ VP_ENTRY vp_main_hist()
   vp_reach("end");
 }
 
-// two threads, each owning a reference, copy and drop handles concurrently
+// two logical threads, each taking and dropping references on a shared object: the counter accesses must be race-free
+// (lockset discipline with the ATOMIC pseudo-lock; decided sequentially, confirmed natively with ThreadSanitizer) and the
+// count exact afterwards
 static Obj *g_shared;
-static volatile int g_fin[2];
-static void worker(void *arg)
+static void use_refs()
 {
-  int id = (int)(intptr_t)arg;
-  {
-    IntrusivePtr<Obj> mine(g_shared);        // +1
-    IntrusivePtr<Obj> copy(mine);            // +1
-    IntrusivePtr<Obj> other;
-    other = copy;                            // +1
-  }                                          // -3
-  g_fin[id] = 1;
-}
+  IntrusivePtr<Obj> mine(g_shared);        // +1
+  IntrusivePtr<Obj> copy(mine);            // +1
+  IntrusivePtr<Obj> other;
+  other = copy;                            // +1
+}                                          // -3
+#ifdef VP_NATIVE_STRESS
+#include <thread>
 VP_ENTRY vp_main_threads()
 {
+  for (int it = 0; it < 2000; it++) {
+    g_dtor[0] = 0; g_shared = new Obj(0);
+    std::thread a(use_refs), b(use_refs); a.join(); b.join();
+    if (g_shared->useCount() != 1) { vp_assert(false, "count back to the creator's reference after both threads finished"); }
+    g_shared->refDec();
+  }
+}
+#else
+VP_ENTRY vp_main_threads()
+{
+  vp_nothrow(true);
   g_dtor[0] = 0;
   g_shared = new Obj(0);                     // creator reference
-  vp_spawn(worker, (void *)0);
-  vp_spawn(worker, (void *)1);
-#ifdef VP_NATIVE_BUILD
-  while (!(g_fin[0] && g_fin[1])) {}
-#else
-  vp_assume(g_fin[0] && g_fin[1]);
-#endif
+  vp_shared(g_shared, sizeof(Obj));
+  vp_thread(1); use_refs();
+  vp_thread(2); use_refs();
+  vp_thread(1);
   vp_assert(g_dtor[0] == 0, "object alive while the creator reference remains");
   vp_assert(g_shared->useCount() == 1, "count back to the creator's reference after both threads finished");
   g_shared->refDec();
   vp_assert(g_dtor[0] == 1, "destroyed exactly once by the last release");
   vp_reach("end");
 }
+#endif
